@@ -44,17 +44,21 @@ open Py
     `WNodeB 0` of the generalised grammar — texts and tails made of ordinary characters of the domain, escape tokens
     and footnote tokens, the backtick pattern matching nowhere at or before an STX that does not start a footnote
     token — the escapable characters are ordinary ones, the reference definitions and the footnote ids hold no STX/ETX,
-    then every element of the result is such an element again (no inline placeholder is left), and the raw-HTML stash
-    is untouched.  (The grammar has two parameters, `NoCtlF.HtmlBound`: are footnote tokens admitted, and how many
-    raw-HTML placeholders `STX wzxhzdk:N ETX` — a third kind of foreign token, written by the fenced_code preprocessor,
-    see `Props/C10XAll.lean` —; the statement holds for every choice.) -/
+    and the raw-HTML stash behind the stage has at most `HtmlBound.h` entries (the number of raw-HTML placeholders that
+    the grammar admits), then every element of the result is such an element again (no inline placeholder is left), and
+    the raw-HTML stash has only grown by entries free of STX/ETX — the entities that the entity pattern stores, leaving a
+    raw-HTML placeholder in the text — and is untouched when the character domain has no ampersand (`NoCtlF.HtmlOK`).
+    (The grammar has three parameters, `NoCtlF.HtmlBound`: are footnote tokens admitted, how many raw-HTML placeholders
+    `STX wzxhzdk:N ETX` — a third kind of foreign token, written by the fenced_code preprocessor and by the entity
+    pattern, see `Props/C10XAll.lean`, `Props/C10XAllAmp.lean` —, and does the character domain admit `&`; the statement
+    holds for every choice.) -/
 theorem C10X_inline_stage_footnotes [NoCtlF.HtmlBound] {xc : InlineX.XCfg} (hcfg : NoCtlF.EscOK xc.cfg.esc) (hrefs : RefsOK xc.cfg)
     (hkeys : ∀ k ∈ xc.fnKeys, NoCtl k) {fn wl nl : Bool} (ht : xc.table = InlineX.table fn wl nl)
     {tree t : Node} {html : List Str} {xs : InlineX.XSt}
     (htree : tree.Forall (NoCtlF.WNodeB 0)) (htq : tree.Forall (QN wl))
-    (h : InlineX.runX xc tree html = some (t, xs)) :
-    t.Forall (NoCtlF.WNodeB 0) ∧ xs.st.html = html :=
-  runX_specB (hiSpecXB_tables hcfg hrefs hkeys ht) htree htq h
+    (h : InlineX.runX xc tree html = some (t, xs)) (hb : xs.st.html.length ≤ NoCtlF.HtmlBound.h) :
+    t.Forall (NoCtlF.WNodeB 0) ∧ NoCtlF.HtmlOK xs.st.html html :=
+  runX_specB (hiSpecXB_tables hcfg hrefs hkeys ht) htree htq h hb
 
 /-! ## 2. End to end -/
 
